@@ -183,10 +183,15 @@ def drive(PositionGrid, alg, N, text, rng):
     REC.begin_case({"o": f"{alg}_{N}", "t": text}, cls=[f"alg={alg}"], sample=(N in (12, 26)))
     try:
         pg = PositionGrid(o_grid_name=f"{alg}_{N}", t_grid_name=text, position_grid_cartesian=True)
+        before = sum(REC.monitors[m]["calls"] + REC.monitors[m]["skipped"] for m in DECIDING)
         calls = [pg.get_all_position_volumes, pg.get_borders_of_position_grid, pg.get_distances_of_position_grid, pg.get_adjacency_of_position_grid]
         rng.shuffle(calls)
         from vlib.rec import call_and_hold
         call_and_hold(calls, "C06.returned_object_stable", hostile_caller=True)
+        if sum(REC.monitors[m]["calls"] + REC.monitors[m]["skipped"] for m in DECIDING) == before:
+            # the mode-specific monitors did not fire: the object does not consider itself Cartesian although it was requested so
+            REC.fail("C06.volumes", {"o": f"{alg}_{N}", "t": text, "problem": "grid requested with position_grid_cartesian=True is not served "
+                                     "by the Cartesian cell model", "flag": bool(getattr(pg, "position_grid_cartesian", None))})
         e = expected(pg)
         if e["surrounds"] and pg.t_grid.get_N_trans() >= 2:
             REC.nontrivial_case((alg, N, text))
